@@ -810,3 +810,567 @@ func c19DecodeTargetFresh(p *Prog, r *Report, rule string) {
 		})
 	}
 }
+
+// ---------------------------------------------------------------------------------------------------------------
+// Round 3 (rules added after the second round of independently seeded changes)
+
+const pkgBadger = "internal/db/badger"
+
+func isBadgerMethod(info *types.Info, c *ast.CallExpr, recv, name string) bool {
+	sel, ok := ast.Unparen(c.Fun).(*ast.SelectorExpr)
+	if !ok || sel.Sel.Name != name {
+		return false
+	}
+	fn, ok := info.Uses[sel.Sel].(*types.Func)
+	if !ok || fn.Pkg() == nil || !strings.Contains(fn.Pkg().Path(), "dgraph-io/badger") {
+		return false
+	}
+	sig, _ := fn.Type().(*types.Signature)
+	if sig == nil || sig.Recv() == nil {
+		return false
+	}
+	return strings.HasSuffix(sig.Recv().Type().String(), "."+recv)
+}
+
+// c04SyncCommit (seeded C04-C): a Badger write is acknowledged only after its transaction has committed. Every
+// write transaction of the Badger layer is a synchronous DB.Update, or a NewTransaction whose Commit error is
+// consumed; asynchronous commits (CommitWith, write batches) are not used.
+func c04SyncCommit(p *Prog, r *Report, rule string) {
+	nUpd := 0
+	for _, k := range sortedFuncKeys(p) {
+		fi := p.Funcs[k]
+		if shortPath(fi.Pkg.PkgPath) != pkgBadger || fi.Decl.Body == nil {
+			continue
+		}
+		info := fi.Pkg.TypesInfo
+		f := p.FlatOf(fi)
+		ast.Inspect(fi.Decl.Body, func(x ast.Node) bool {
+			c, ok := x.(*ast.CallExpr)
+			if !ok {
+				return true
+			}
+			switch {
+			case isBadgerMethod(info, c, "Txn", "CommitWith"), isBadgerMethod(info, c, "DB", "NewWriteBatch"), isBadgerMethod(info, c, "DB", "NewWriteBatchAt"):
+				r.Viol(rule, k+"#asynchronous-commit", p.pos(c), "the write is handed to Badger's asynchronous commit path: the caller is told about success before the write is durable, and a commit failure reaches nobody. A kill right after the acknowledgement loses an acknowledged Set / Delete")
+			case isBadgerMethod(info, c, "DB", "Update"):
+				nUpd++
+				r.Hold(rule, fmt.Sprintf("%s#synchronous-update/%d", k, nUpd), p.pos(c), "DB.Update commits before it returns")
+			case isBadgerMethod(info, c, "DB", "NewTransaction"):
+				// a hand-rolled write transaction: Commit must be called and its error consumed
+				commits := 0
+				for _, n := range f.Nodes {
+					if n.Ast == nil {
+						continue
+					}
+					for _, cc := range callsIn(n.Ast, false) {
+						if isBadgerMethod(info, cc, "Txn", "Commit") {
+							commits++
+							f.SiteConsumed(r, rule, k+"#commit-error", fi, f.bindOf(n, cc), flowOpts{})
+						}
+					}
+				}
+				if len(c.Args) == 1 {
+					if tv, ok := info.Types[c.Args[0]]; ok && tv.Value != nil && tv.Value.ExactString() == "false" {
+						break // read-only transaction
+					}
+				}
+				r.Check(commits > 0, rule, k+"#explicit-transaction-commits", p.pos(c), "the explicit transaction is committed synchronously", "a write transaction is opened but never committed with Commit(): its writes are lost or acknowledged before they are durable")
+			}
+			return true
+		})
+	}
+	r.Floor(rule, "badger-update-sites", nUpd, 1)
+}
+
+// c19IteratorCopies (seeded C04-D / C19-D): Badger recycles the key and value buffers of iterator items; bytes that
+// leave one iteration must be copied. In every function of the Badger layer that iterates, each use of the value
+// handed to an Item.Value callback, and each Item.Key() of an iterator item, is the operand of a copying
+// operation (slices.Clone, bytes.Clone, string(...), copy, append(x, v...)) - or the copying accessors
+// KeyCopy / ValueCopy are used.
+func c19IteratorCopies(p *Prog, r *Report, rule string) {
+	n := 0
+	// parameters that receive an iterator item from a caller in the package (a per-record helper)
+	itemParams := map[types.Object]bool{}
+	for pass := 0; pass < 3; pass++ {
+		for _, k := range sortedFuncKeys(p) {
+			fi := p.Funcs[k]
+			if shortPath(fi.Pkg.PkgPath) != pkgBadger || fi.Decl.Body == nil {
+				continue
+			}
+			info := fi.Pkg.TypesInfo
+			local := map[types.Object]bool{}
+			ast.Inspect(fi.Decl.Body, func(x ast.Node) bool {
+				if as, ok := x.(*ast.AssignStmt); ok && len(as.Lhs) == 1 && len(as.Rhs) == 1 {
+					if c, ok := ast.Unparen(as.Rhs[0]).(*ast.CallExpr); ok && isBadgerMethod(info, c, "Iterator", "Item") {
+						if o := objOf(info, as.Lhs[0]); o != nil {
+							local[o] = true
+						}
+					}
+				}
+				return true
+			})
+			ast.Inspect(fi.Decl.Body, func(x ast.Node) bool {
+				c, ok := x.(*ast.CallExpr)
+				if !ok {
+					return true
+				}
+				callee := p.staticCallee(fi.Pkg, c)
+				if callee == nil || callee.Pkg != fi.Pkg {
+					return true
+				}
+				po := paramObjs(callee)
+				for idx, a := range argExprs(c, callee) {
+					isIt := false
+					if o := objOf(info, a); o != nil && (local[o] || itemParams[o]) {
+						isIt = true
+					}
+					if ac, ok := ast.Unparen(a).(*ast.CallExpr); ok && isBadgerMethod(info, ac, "Iterator", "Item") {
+						isIt = true
+					}
+					if isIt && po[idx] != nil {
+						itemParams[po[idx]] = true
+					}
+				}
+				return true
+			})
+		}
+	}
+	for _, k := range sortedFuncKeys(p) {
+		fi := p.Funcs[k]
+		if shortPath(fi.Pkg.PkgPath) != pkgBadger || fi.Decl.Body == nil {
+			continue
+		}
+		info := fi.Pkg.TypesInfo
+		// iterator items: variables assigned from Iterator.Item()
+		items := map[types.Object]bool{}
+		for _, po := range paramObjs(fi) {
+			if po != nil && itemParams[po] {
+				items[po] = true
+			}
+		}
+		ast.Inspect(fi.Decl.Body, func(x ast.Node) bool {
+			if as, ok := x.(*ast.AssignStmt); ok && len(as.Lhs) == 1 && len(as.Rhs) == 1 {
+				if c, ok := ast.Unparen(as.Rhs[0]).(*ast.CallExpr); ok && isBadgerMethod(info, c, "Iterator", "Item") {
+					if o := objOf(info, as.Lhs[0]); o != nil {
+						items[o] = true
+					}
+				}
+			}
+			return true
+		})
+		if len(items) == 0 {
+			continue
+		}
+		isItem := func(e ast.Expr) bool {
+			if o := objOf(info, e); o != nil && items[o] {
+				return true
+			}
+			if c, ok := ast.Unparen(e).(*ast.CallExpr); ok && isBadgerMethod(info, c, "Iterator", "Item") {
+				return true
+			}
+			return false
+		}
+		// volatile byte expressions: parameters of Value callbacks of iterator items, and item.Key() calls
+		vol := map[types.Object]bool{}
+		var volCalls []*ast.CallExpr
+		ast.Inspect(fi.Decl.Body, func(x ast.Node) bool {
+			c, ok := x.(*ast.CallExpr)
+			if !ok {
+				return true
+			}
+			sel, ok := ast.Unparen(c.Fun).(*ast.SelectorExpr)
+			if !ok || !isItem(sel.X) {
+				return true
+			}
+			switch {
+			case isBadgerMethod(info, c, "Item", "Value") && len(c.Args) == 1:
+				if lit, ok := ast.Unparen(c.Args[0]).(*ast.FuncLit); ok && len(lit.Type.Params.List) == 1 && len(lit.Type.Params.List[0].Names) == 1 {
+					if o := info.Defs[lit.Type.Params.List[0].Names[0]]; o != nil {
+						vol[o] = true
+					}
+				}
+			case isBadgerMethod(info, c, "Item", "Key"):
+				volCalls = append(volCalls, c)
+			}
+			return true
+		})
+		// every use is the operand of a copy
+		var stack []ast.Node
+		ast.Inspect(fi.Decl.Body, func(x ast.Node) bool {
+			if x == nil {
+				stack = stack[:len(stack)-1]
+				return true
+			}
+			stack = append(stack, x)
+			isVol := false
+			if id, ok := x.(*ast.Ident); ok {
+				if o := info.Uses[id]; o != nil && vol[o] {
+					isVol = true
+				}
+			}
+			if c, ok := x.(*ast.CallExpr); ok {
+				for _, vc := range volCalls {
+					if vc == c {
+						isVol = true
+					}
+				}
+			}
+			if !isVol {
+				return true
+			}
+			n++
+			copied, how := false, ""
+			if len(stack) >= 2 {
+				parent := stack[len(stack)-2]
+				if pc, ok := parent.(*ast.CallExpr); ok && pc.Fun != x {
+					switch {
+					case isFunc(info, pc, "slices", "Clone"), isFunc(info, pc, "bytes", "Clone"):
+						copied, how = true, types.ExprString(pc.Fun)
+					default:
+						if tv, ok := info.Types[pc.Fun]; ok && tv.IsType() {
+							if bt, ok := tv.Type.Underlying().(*types.Basic); ok && bt.Info()&types.IsString != 0 {
+								copied, how = true, "string conversion"
+							}
+						}
+						if id, ok := pc.Fun.(*ast.Ident); ok {
+							if _, isB := info.Uses[id].(*types.Builtin); isB {
+								switch id.Name {
+								case "copy":
+									if len(pc.Args) == 2 && pc.Args[1] == x {
+										copied, how = true, "copy"
+									}
+								case "append":
+									if pc.Ellipsis.IsValid() && len(pc.Args) == 2 && pc.Args[1] == x {
+										copied, how = true, "append(x, v...)"
+									}
+								case "len":
+									copied, how = true, "len"
+								}
+							}
+						}
+					}
+				}
+			}
+			what := types.ExprString(x.(ast.Expr))
+			r.Check(copied, rule, fmt.Sprintf("%s#iterator-bytes-copied/%s@%d", k, what, n), p.pos(x), "copied by "+how,
+				"bytes owned by a Badger iterator item ("+what+") leave the iteration without being copied: Badger recycles the item's buffers, so once more records than the prefetch window are read, earlier records are overwritten by later ones - recovery drops or duplicates versions and deletes live content")
+			return true
+		})
+	}
+	r.Floor(rule, "iterator-byte-uses", n, 1)
+}
+
+// c11MessageLimits (seeded C11-D): no transport option lowers the gRPC message size limit below the library default.
+// Keys are unbounded strings and travel in single messages: a smaller limit makes the server (or client) refuse,
+// with ResourceExhausted, requests that the inline client accepts.
+func c11MessageLimits(p *Prog, r *Report, rule string) {
+	const grpcDefault = 4 << 20
+	n := 0
+	for _, k := range sortedFuncKeys(p) {
+		fi := p.Funcs[k]
+		if fi.Decl.Body == nil {
+			continue
+		}
+		info := fi.Pkg.TypesInfo
+		ast.Inspect(fi.Decl.Body, func(x ast.Node) bool {
+			c, ok := x.(*ast.CallExpr)
+			if !ok || len(c.Args) != 1 {
+				return true
+			}
+			name := ""
+			for _, nm := range []string{"MaxRecvMsgSize", "MaxSendMsgSize", "MaxCallRecvMsgSize", "MaxCallSendMsgSize", "MaxMsgSize"} {
+				if isFunc(info, c, "google.golang.org/grpc", nm) {
+					name = nm
+				}
+			}
+			if name == "" {
+				return true
+			}
+			n++
+			cons := fmt.Sprintf("%s#grpc.%s", k, name)
+			tv, ok := info.Types[c.Args[0]]
+			if !ok || tv.Value == nil {
+				r.Hold(rule, cons, p.pos(c), "limit is not a compile-time constant (not decided)")
+				return true
+			}
+			v, exact := constant.Int64Val(constant.ToInt(tv.Value))
+			r.Check(exact && v >= grpcDefault, rule, cons, p.pos(c), fmt.Sprintf("limit %d >= the default %d", v, grpcDefault),
+				fmt.Sprintf("grpc.%s(%d) lowers the message size limit below gRPC's default of %d bytes: a request whose key (or any single message) exceeds it is refused by the transport with ResourceExhausted, which the client maps to ErrNoFreeSpace, while the inline client accepts the same call", name, v, grpcDefault))
+			return true
+		})
+	}
+	if n == 0 {
+		r.Hold(rule, "grpc-message-size-options", "", "no message size option is set: the library defaults apply on both sides")
+	}
+}
+
+// c11WriterFIFO (seeded C11-C): bytes leave the stream writer in the order they were written. The writer keeps a
+// buffer of bytes not yet sent; a Send whose payload is taken from the argument of the current Write overtakes
+// them unless the buffer was tested or drained first.
+func c11WriterFIFO(p *Prog, r *Report, rule string) {
+	const swPkg = "internal/utils/grpc/streamwriter"
+	k := "(*" + swPkg + ".writer).Write"
+	fi := p.Func(k)
+	if fi == nil {
+		r.Undecided(rule, k, "", "not found")
+		return
+	}
+	info := fi.Pkg.TypesInfo
+	f := p.FlatInl(fi)
+	pObj := paramObjs(fi)[0]
+	// does the writer buffer at all? (a Write on a bytes.Buffer field of the receiver)
+	isBufOp := func(c *ast.CallExpr, names ...string) bool {
+		sel, ok := ast.Unparen(c.Fun).(*ast.SelectorExpr)
+		if !ok {
+			return false
+		}
+		tv, ok := info.Types[sel.X]
+		if !ok || !strings.HasSuffix(strings.TrimPrefix(tv.Type.String(), "*"), "bytes.Buffer") {
+			return false
+		}
+		for _, nm := range names {
+			if sel.Sel.Name == nm {
+				return true
+			}
+		}
+		return false
+	}
+	buffers := false
+	for _, mk := range p.methodsOf(swPkg, "writer") {
+		ast.Inspect(p.Func(mk).Decl.Body, func(x ast.Node) bool {
+			if c, ok := x.(*ast.CallExpr); ok && isBufOp(c, "Write", "WriteByte", "WriteString", "ReadFrom") {
+				buffers = true
+			}
+			return true
+		})
+	}
+	// values derived from the argument: p itself, slices of it, locals assigned from those
+	derived := map[types.Object]bool{pObj: true}
+	for changed := true; changed; {
+		changed = false
+		for _, n := range f.Nodes {
+			as, ok := n.Ast.(*ast.AssignStmt)
+			if !ok || len(as.Lhs) != len(as.Rhs) {
+				continue
+			}
+			for i, l := range as.Lhs {
+				lo := objOf(info, l)
+				if lo == nil || derived[lo] {
+					continue
+				}
+				if ro := f.CanonRoot(as.Rhs[i]); ro != nil && derived[ro] {
+					if _, isCall := ast.Unparen(as.Rhs[i]).(*ast.CallExpr); !isCall {
+						derived[lo] = true
+						changed = true
+					}
+				}
+				if ro := rootIdentObj(info, as.Rhs[i]); ro != nil && derived[ro] {
+					derived[lo] = true
+					changed = true
+				}
+			}
+		}
+	}
+	fromArg := func(e ast.Expr) bool {
+		found := false
+		ast.Inspect(e, func(x ast.Node) bool {
+			if id, ok := x.(*ast.Ident); ok {
+				if o := info.Uses[id]; o != nil && derived[o] {
+					found = true
+				}
+			}
+			return !found
+		})
+		return found
+	}
+	// evidence that the buffer is empty or being consumed: a test of its length, or a draining call
+	var evidence []int
+	for _, n := range f.Nodes {
+		if n.Ast == nil {
+			continue
+		}
+		for _, c := range callsIn(n.Ast, false) {
+			if isBufOp(c, "Len", "Read", "Next", "Reset", "Bytes", "WriteTo", "ReadByte", "Truncate") {
+				evidence = append(evidence, n.ID)
+			}
+		}
+	}
+	nSend := 0
+	for _, n := range f.Nodes {
+		if n.Ast == nil {
+			continue
+		}
+		for _, c := range callsIn(n.Ast, false) {
+			sel, ok := ast.Unparen(c.Fun).(*ast.SelectorExpr)
+			if !ok || sel.Sel.Name != "Send" || p.staticCallee(fi.Pkg, c) != nil || len(c.Args) != 1 {
+				continue
+			}
+			nSend++
+			cons := fmt.Sprintf("%s#send-in-write-order/%d", k, nSend)
+			if !fromArg(c.Args[0]) || !buffers {
+				r.Hold(rule, cons, p.pos(c), "the payload comes out of the writer's buffer")
+				continue
+			}
+			r.Check(f.MustPrecede(setOf(evidence), n.ID), rule, cons, p.pos(c), "the buffer is examined before bytes of the argument are sent directly",
+				"Write sends bytes of its argument straight to the stream although bytes of an earlier Write may still sit in the writer's buffer: they are overtaken and the server stores a permutation of the written bytes (right length, no error)")
+		}
+	}
+	r.Floor(rule, "stream-writer-sends-in-Write", nSend, 1)
+}
+
+func rootIdentObj(info *types.Info, e ast.Expr) types.Object {
+	for {
+		switch x := ast.Unparen(e).(type) {
+		case *ast.Ident:
+			return objOf(info, x)
+		case *ast.SliceExpr:
+			e = x.X
+		case *ast.IndexExpr:
+			e = x.X
+		default:
+			return nil
+		}
+	}
+}
+
+// c11CtxFromCaller (seeded C03-D): the transaction id travels as outgoing metadata inside the caller's context, so
+// every gRPC call of the external client must be made with a context derived from the context the caller passed
+// (context.With*, metadata.AppendToOutgoingContext, the tx's own ctx helper) - never with a fresh root context.
+func c11CtxFromCaller(p *Prog, r *Report, rule string) {
+	n := 0
+	for _, k := range sortedFuncKeys(p) {
+		fi := p.Funcs[k]
+		if shortPath(fi.Pkg.PkgPath) != pkgExtDB || fi.Decl.Body == nil {
+			continue
+		}
+		info := fi.Pkg.TypesInfo
+		var ctxParam types.Object
+		for _, o := range paramObjs(fi) {
+			if o != nil && strings.HasSuffix(o.Type().String(), "context.Context") {
+				ctxParam = o
+			}
+		}
+		var rooted func(e ast.Expr, depth int) bool
+		rooted = func(e ast.Expr, depth int) bool {
+			if depth > 6 {
+				return false
+			}
+			switch x := ast.Unparen(e).(type) {
+			case *ast.Ident:
+				o := objOf(info, x)
+				if o == nil {
+					return false
+				}
+				if o == ctxParam {
+					// the parameter itself, unless it is reassigned from something unrooted
+					ok := true
+					ast.Inspect(fi.Decl.Body, func(y ast.Node) bool {
+						if as, isAs := y.(*ast.AssignStmt); isAs {
+							for i, l := range as.Lhs {
+								if objOf(info, l) == o && as.Tok.String() == "=" {
+									rhs := as.Rhs[0]
+									if len(as.Rhs) == len(as.Lhs) {
+										rhs = as.Rhs[i]
+									}
+									if !rootedCall(info, rhs, func(a ast.Expr) bool { return objOf(info, a) == o || rooted(a, depth+1) }) {
+										ok = false
+									}
+								}
+							}
+						}
+						return true
+					})
+					return ok
+				}
+				// a local: every definition is rooted
+				defs, all := 0, true
+				ast.Inspect(fi.Decl.Body, func(y ast.Node) bool {
+					if as, isAs := y.(*ast.AssignStmt); isAs {
+						for i, l := range as.Lhs {
+							if objOf(info, l) == o {
+								defs++
+								rhs := as.Rhs[0]
+								if len(as.Rhs) == len(as.Lhs) {
+									rhs = as.Rhs[i]
+								}
+								if !rooted(rhs, depth+1) {
+									all = false
+								}
+							}
+						}
+					}
+					return true
+				})
+				return defs > 0 && all
+			case *ast.CallExpr:
+				return rootedCall(info, x, func(a ast.Expr) bool { return rooted(a, depth+1) })
+			}
+			return false
+		}
+		ast.Inspect(fi.Decl.Body, func(x ast.Node) bool {
+			c, ok := x.(*ast.CallExpr)
+			if !ok || len(c.Args) == 0 {
+				return true
+			}
+			sel, ok := ast.Unparen(c.Fun).(*ast.SelectorExpr)
+			if !ok {
+				return true
+			}
+			fn, ok := info.Uses[sel.Sel].(*types.Func)
+			if !ok {
+				return true
+			}
+			sig, _ := fn.Type().(*types.Signature)
+			if sig == nil || sig.Recv() == nil || !strings.HasSuffix(sig.Recv().Type().String(), "StoreV1Client") {
+				return true
+			}
+			n++
+			cons := fmt.Sprintf("%s#%s-context-from-caller", k, fn.Name())
+			if ctxParam == nil {
+				r.Viol(rule, cons, p.pos(c), "the method has no context parameter to derive the call's context from")
+				return true
+			}
+			r.Check(rooted(c.Args[0], 0), rule, cons, p.pos(c), "the call's context is derived from the caller's context",
+				"the gRPC call is made with a context that is not derived from the one the caller passed: the transaction id (outgoing metadata of the caller's context) is lost and the operation runs outside the transaction - a write through Tx."+fi.Decl.Name.Name+" is stored as an autocommit write, survives Rollback and is not part of Commit")
+			return true
+		})
+	}
+	r.Floor(rule, "external-client-grpc-calls", n, 9)
+}
+
+// rootedCall: a call that derives a context from a context argument (context.With*, metadata helpers, or any
+// function returning a context.Context that takes one): rooted iff that argument is.
+func rootedCall(info *types.Info, e ast.Expr, argRooted func(ast.Expr) bool) bool {
+	c, ok := ast.Unparen(e).(*ast.CallExpr)
+	if !ok {
+		return false
+	}
+	if isFunc(info, c, "context", "Background") || isFunc(info, c, "context", "TODO") {
+		return false
+	}
+	tv, ok := info.Types[c]
+	if !ok {
+		return false
+	}
+	returnsCtx := false
+	switch t := tv.Type.(type) {
+	case *types.Tuple:
+		for i := 0; i < t.Len(); i++ {
+			if strings.HasSuffix(t.At(i).Type().String(), "context.Context") {
+				returnsCtx = true
+			}
+		}
+	default:
+		returnsCtx = strings.HasSuffix(tv.Type.String(), "context.Context")
+	}
+	if !returnsCtx {
+		return false
+	}
+	for _, a := range c.Args {
+		if at, ok := info.Types[a]; ok && strings.HasSuffix(at.Type.String(), "context.Context") {
+			return argRooted(a)
+		}
+	}
+	// a method whose receiver carries the context (stream.Context()) is not a derivation from the parameter
+	return false
+}
